@@ -87,6 +87,8 @@ def run_program(args):
     # a read-noise dominated error map (values ~185): squares of the integer representations exceed the int16 range
     base['error'] = base['error'] + 180.0
     segm = E._segm(base)
+    if entry == 'isophote_fit':
+        base['galaxy'] = E.galaxy_counts()
     ref_inp = dict(base, segm=segm, method='center' if entry == 'aperture_photometry' and rep in ('f4',) else 'exact')
     st0, ref = E.run_entry(entry, dict(ref_inp))
     rec = {'id': pid, 'entry': entry, 'rep': rep, 'ref_ok': st0 == 'ok', 'raised': False, 'struct_equal': True, 'maxdev': 0, 'maxabs': 0, 'out_has_units': False}
@@ -105,8 +107,8 @@ def run_program(args):
         inp.pop('error', None); inp.pop('mask', None)
         inp['error'] = None; inp['mask'] = None
     else:
-        for k in ('data', 'error', 'bkg', 'gain_map'):
-            if k == 'gain_map' and 'gain_map' not in base:
+        for k in ('data', 'error', 'bkg', 'gain_map', 'galaxy'):
+            if k in ('gain_map', 'galaxy') and k not in base:
                 continue
             if k in uses or k == 'data':
                 if rep == 'mixed_units' and k != 'data':
